@@ -262,6 +262,30 @@ PROPS = {
 }
 
 PROPS.update({
+    'C20': dict(
+        level='proof',
+        level_text='Rocq theorems about the faithful LL(k) parser model with its three options: an accepted run has a peak depth d '
+                   '(= number of open non-push productions, C20_depth_counts_open_productions) such that EVERY option set whose limit is '
+                   'absent or >= d accepts with the same action list (same tree events when the trim flag agrees), whatever its recovery '
+                   'and trim flags, and every limit < d yields the depth-limit error (C20_ll_options_peak, for every recovery oracle); a '
+                   'rejected input is accepted under no option set (C20_ll_options_reject); no recovery branch is entered on an accepted '
+                   'run (C20_accepted_no_errors). Tie to the code: the real LLKParser and the real LRParser run the full option matrix '
+                   '(recovery x trim x 12 depth limits; LR: trim x limits) on real generated tables; verdict, action list and comment '
+                   'callbacks must be option-independent, the depth error must appear exactly below the model\'s peak.',
+        level_note='The LR half is differential against the default-option LR model (peak read off the real runs: acceptance must be '
+                   'monotone in the limit, below it the depth error). Rejected inputs: only "not accepted" is compared (a recovering '
+                   'run legitimately performs more actions before it fails).',
+        technique='Rocq proof (option simulation of the LL push-down automaton; peak-depth characterisation) + differential option matrix on the real parsers',
+        streams=[dict(cmd='c20', quick=240, thorough=8000)],
+        rule='alternately LL(k) grammars (as C01) and LALR(1) grammars (as C03); inputs: random sentences, mutants, all strings of '
+             'length <= 2 (LL) / up to a bound (LR), each also rendered with line/block comments before, between and after the tokens; '
+             'options: all recovery x trim combinations without limit, and limits 0,1,2,3,4,5,6,8,10,13,20,3000 with random flags; '
+             'non-trivial = an accepted input of >= 2 tokens with limits on both sides of the peak; distinct = distinct case text',
+        explanation='C20_ll_options_peak, C20_ll_options_reject, C20_ll_depth_limit_error.',
+    ),
+})
+
+PROPS.update({
     'C01': dict(
         level='proof',
         level_text='Rocq theorems about a faithful model of LLKParser::parse_into (parser stack, lookahead via the verified eval model, '
